@@ -11,6 +11,7 @@ import JinjaV.Wire.Undefined
 import JinjaV.Wire.Path
 import JinjaV.Wire.Native
 import JinjaV.Wire.FiltColl
+import JinjaV.Wire.Lex
 
 open JinjaV
 
@@ -26,6 +27,7 @@ def dispatch (line : String) : Sx :=
     | "macro" => Wire.Macro.handle args
     | "sbx" => Wire.Sandbox.handle args
     | "undef" => Wire.Undefined.handle args
+    | "lex" => Wire.Lex.handle args
     | "filt" => Wire.FiltColl.handle args
     | "native" => Wire.Native.handle args
     | "path-split" => Wire.Path.handleSplit args
